@@ -266,7 +266,7 @@ func c16Eval(c *ctx, cs c16Case) {
 }
 
 func runC16(c *ctx) {
-	c.Rule = "three observers of the same object must agree: Variables() equals the sequence of variable tokens read from String() by the harness's own scanner (ellipses by position), no name twice, len(ToBytes())>0 iff Variables() is empty (messages: and wait bit decided and session set), Size() equals the number of printed elements (-1 for an unfilled ASCII variable), every printed [n] equals the elements printed inside. Objects: generated trees with variables at every position and ellipses, results of ellipsis expansion, messages in all completeness states, messages derived by the producers from messages that were already observed, parser-produced messages. non-trivial = at least 2 variables in at least 2 different nodes; distinct by printed form Also (rounds 4-8): nodes with exactly n variables for n to 1000; lists of 20 MB that encode completely; first listings of fresh objects asked by eight goroutines behind a spin barrier."
+	c.Rule = "three observers of the same object must agree: Variables() equals the sequence of variable tokens read from String() by the harness's own scanner (ellipses by position), no name twice, len(ToBytes())>0 iff Variables() is empty (messages: and wait bit decided and session set), Size() equals the number of printed elements (-1 for an unfilled ASCII variable), every printed [n] equals the elements printed inside. Objects: generated trees with variables at every position and ellipses, results of ellipsis expansion, messages in all completeness states, messages derived by the producers from messages that were already observed, parser-produced messages. non-trivial = at least 2 variables in at least 2 different nodes; distinct by printed form Also (rounds 4-8): nodes with exactly n variables for n to 1000; lists of 20 MB that encode completely; first listings of fresh objects asked by eight goroutines behind a spin barrier. Also (round 10): variables of seven kinds under 60-300 lists with names beside the nest, as item and as message, the deep name duplicated at the top; the same refusal (first and last name equal) asked for 12,000 times with fresh names."
 	c.Assume = []string{"variable base names avoid the words T and F (a variable called T in a BOOLEAN item prints like the value T)", "the scanner in internal/ref/scan.go reads the printed form"}
 	n := c.pick(200000, 1500000)
 	c.parallel(n, func(i int, r *rng.R) {
